@@ -77,7 +77,6 @@ pub open spec fn bool_text(b: bool) -> Seq<char> { if b { "true"@ } else { "fals
 #[verifier::external_body]
 pub broadcast proof fn axiom_to_string_ipv4(t: &std::net::Ipv4Addr, s: String)
     ensures #[trigger] vstd::string::to_string_from_display_ensures::<std::net::Ipv4Addr>(t, s) <==> s@ == ip_string(*t) {}
-pub uninterp spec fn vx_status_forbidden() -> http::StatusCode;    // StatusCode::FORBIDDEN
 pub assume_specification [std::time::Instant::now] () -> std::time::Instant;
 pub assume_specification<'a> [<http::Uri as PartialEq<&'a str>>::eq] (u: &http::Uri, s: &&'a str) -> (r: bool)
     ensures r == uri_is_str(*u, s@);
